@@ -318,175 +318,25 @@ theorem intText_noNL (i : Int) : hasNL (CC.intText i) = false := by
 
 end Wz.C16L
 
-/-! ### C06 for token words: `parse_list_header (dump_header l) = l` -/
-namespace Wz.C16L
-open Wz Hdr Views
-
-/-- a header token character that is no separator, quote, backslash or white space -/
-def tokCh (c : Char) : Bool := Gen.Containers.tokenChars.contains c.toNat
-
-/-- a non-empty word of token characters (`Cookie`, `Accept-Encoding`, `GET`, `en-US`, …) -/
-def tokenWord (w : Str) : Bool := !w.isEmpty && w.all tokCh
-
-theorem tokenChars_plain : ∀ n ∈ Gen.Containers.tokenChars,
-    n ≠ 44 ∧ n ≠ 34 ∧ n ≠ 92 ∧ n < 128 ∧ ¬ (9 ≤ n ∧ n ≤ 13) ∧ ¬ (28 ≤ n ∧ n ≤ 32) := by
-  decide
-
-theorem tokCh_facts {c : Char} (h : tokCh c = true) :
-    c ≠ ',' ∧ c ≠ '"' ∧ c ≠ '\\' ∧ Py.isSpace c = false := by
-  have hm : c.toNat ∈ Gen.Containers.tokenChars := by simpa [tokCh] using h
-  obtain ⟨h1, h2, h3, h4, h5, h6⟩ := tokenChars_plain _ hm
-  refine ⟨?_, ?_, ?_, ?_⟩
-  · intro e; subst e; exact h1 rfl
-  · intro e; subst e; exact h2 rfl
-  · intro e; subst e; exact h3 rfl
-  · simp only [Py.isSpace]
-    have : c.toNat < 128 := h4
-    simp only [Bool.or_eq_false_iff, Bool.and_eq_false_iff, decide_eq_false_iff_not, beq_eq_false_iff_ne]
-    omega
-
-theorem plStep_tok (res : List Str) (part : Str) (c : Char) (h : tokCh c = true) :
-    plStep ⟨res, part, false, false⟩ c = ⟨res, part ++ [c], false, false⟩ := by
-  obtain ⟨h1, h2, _, _⟩ := tokCh_facts h
-  simp [plStep, h1, h2]
-
-theorem fold_word (w : Str) (hw : w.all tokCh = true) (res : List Str) (part : Str) :
-    w.foldl plStep ⟨res, part, false, false⟩ = ⟨res, part ++ w, false, false⟩ := by
-  induction w generalizing part with
-  | nil => simp
-  | cons c t ih =>
-    simp only [List.all_cons, Bool.and_eq_true] at hw
-    simp only [List.foldl_cons, plStep_tok res part c hw.1]
-    rw [ih hw.2]; simp
-
-theorem fold_sep (res : List Str) (part : Str) :
-    ", ".toList.foldl plStep ⟨res, part, false, false⟩ = ⟨res ++ [part], [' '], false, false⟩ := by
-  simp [plStep]
-
-/-- the raw parts the scanner produces for a list of token words -/
-def rawParts (pre : Str) : List Str → List Str
-  | [] => []
-  | w :: r => (pre ++ w) :: rawParts [' '] r
-
-theorem fold_words (w : Str) (r : List Str) (hw : w.all tokCh = true) (hr : ∀ x ∈ r, x.all tokCh = true)
-    (res : List Str) (pre : Str) :
-    (List.intercalate ", ".toList (w :: r)).foldl plStep ⟨res, pre, false, false⟩
-      = ⟨res ++ (rawParts pre (w :: r)).dropLast, ((rawParts pre (w :: r)).getLast?).getD [], false, false⟩ := by
-  induction r generalizing w res pre with
-  | nil => simp [List.intercalate, rawParts, fold_word w hw]
-  | cons w' r' ih =>
-    have : List.intercalate ", ".toList (w :: w' :: r') = w ++ (", ".toList ++ List.intercalate ", ".toList (w' :: r')) := by
-      simp [List.intercalate, List.intersperse]
-    rw [this, List.foldl_append, fold_word w hw, List.foldl_append, fold_sep,
-      ih w' (hr w' List.mem_cons_self) (fun x hx => hr x (List.mem_cons_of_mem _ hx))]
-    simp [rawParts, List.dropLast_cons_of_ne_nil, List.getLast?_cons_cons]
-
-theorem dropWhile_none {p : Char → Bool} (w : Str) (h : ∀ c ∈ w, p c = false) : w.dropWhile p = w := by
-  cases w with
-  | nil => rfl
-  | cons c t => simp [List.dropWhile_cons, h c List.mem_cons_self]
-
-theorem strip_word (w : Str) (hw : w.all tokCh = true) : strip w = w ∧ strip (' ' :: w) = w := by
-  have hns : ∀ c ∈ w, Py.isSpace c = false := by
-    intro c hc
-    exact (tokCh_facts (List.all_eq_true.1 hw c hc)).2.2.2
-  have hrev : ∀ c ∈ w.reverse, Py.isSpace c = false := fun c hc => hns c (List.mem_reverse.1 hc)
-  have h1 : Py.rstripBy Py.isSpace w = w := by
-    simp [Py.rstripBy, dropWhile_none _ hrev]
-  constructor
-  · simp [strip, Py.strip, dropWhile_none _ hns, h1]
-  · have : Py.isSpace ' ' = true := by decide
-    simp [strip, Py.strip, List.dropWhile_cons, this, dropWhile_none _ hns, h1]
-
-theorem rawParts_strip (pre : Str) (hpre : pre = [] ∨ pre = [' ']) (l : List Str)
-    (hl : ∀ x ∈ l, x.all tokCh = true) : (rawParts pre l).map strip = l := by
-  induction l generalizing pre with
-  | nil => rfl
-  | cons w r ih =>
-    simp only [rawParts, List.map_cons]
-    rw [ih [' '] (Or.inr rfl) (fun x hx => hl x (List.mem_cons_of_mem _ hx))]
-    have hw := hl w List.mem_cons_self
-    rcases hpre with e | e <;> subst e
-    · simp [(strip_word w hw).1]
-    · simp [(strip_word w hw).2]
-
-theorem rawParts_last_ne (pre : Str) (w : Str) (r : List Str) (hne : ∀ x ∈ (w :: r), x ≠ []) :
-    ((rawParts pre (w :: r)).getLast?).getD [] ≠ [] := by
-  induction r generalizing pre w with
-  | nil => simp [rawParts]; intro _; exact hne w List.mem_cons_self
-  | cons w' r' ih =>
-    simp only [rawParts, List.getLast?_cons_cons]
-    exact ih [' '] w' (fun x hx => hne x (List.mem_cons_of_mem _ hx))
-
-theorem quote_token (w : Str) (h : tokenWord w = true) : quoteHeaderValue w = w := by
-  simp only [tokenWord, Bool.and_eq_true, Bool.not_eq_true'] at h
-  have : isTokenStr w = true := by
-    simp only [isTokenStr]; simpa [tokCh] using h.2
-  simp [quoteHeaderValue, h.1, this]
-
-/-- C06 for the common case: a non-empty list of token words survives
-`dump_header` → `parse_list_header` unchanged -/
-theorem parseList_dumpList (l : List Str) (hl : ∀ w ∈ l, tokenWord w = true) (hne : l ≠ []) :
-    parseListHeader (dumpList l) = l := by
-  have hq : l.map (quoteHeaderValue ·) = l := by
-    have : l.map (quoteHeaderValue ·) = l.map id := List.map_congr_left (fun w hw => quote_token w (hl w hw))
-    rw [this, List.map_id]
-  have hall : ∀ x ∈ l, x.all tokCh = true := by
-    intro x hx; have := hl x hx; simp only [tokenWord, Bool.and_eq_true] at this; exact this.2
-  have hnon : ∀ x ∈ l, x ≠ [] := by
-    intro x hx e; have := hl x hx; subst e; simp [tokenWord] at this
-  cases l with
-  | nil => exact absurd rfl hne
-  | cons w r =>
-    unfold parseListHeader parseHttpList dumpList
-    rw [hq, fold_words w r (hall w List.mem_cons_self) (fun x hx => hall x (List.mem_cons_of_mem _ hx)) [] []]
-    simp only [List.nil_append]
-    have hlast := rawParts_last_ne [] w r hnon
-    have hparts : (rawParts [] (w :: r)).dropLast ++ [((rawParts [] (w :: r)).getLast?).getD []] = rawParts [] (w :: r) := by
-      have hne' : rawParts [] (w :: r) ≠ [] := by simp [rawParts]
-      rw [List.getLast?_eq_some_getLast hne']
-      simp [List.dropLast_concat_getLast]
-    have hemp : (((rawParts [] (w :: r)).getLast?).getD []).isEmpty = false := by
-      cases h : ((rawParts [] (w :: r)).getLast?).getD [] with
-      | nil => exact absurd h hlast
-      | cons _ _ => rfl
-    simp only [hemp, Bool.false_eq_true, if_false, hparts]
-    rw [rawParts_strip [] (Or.inl rfl) (w :: r) hall]
-    -- token words carry no quotes: unwrapping is the identity
-    have : (w :: r).map unwrapQuotes = (w :: r).map id := by
-      apply List.map_congr_left
-      intro x hx
-      have hx' := hall x hx
-      unfold unwrapQuotes
-      cases x with
-      | nil => rfl
-      | cons c t =>
-        have hc : c ≠ '"' := (tokCh_facts (List.all_eq_true.1 hx' c List.mem_cons_self)).2.1
-        simp [hc]
-    rw [this, List.map_id]
-
-end Wz.C16L
-
-
 /-! ### histories whose written views are known to round-trip -/
 namespace Wz.C16L
 open Wz Hdr Views
 variable {σ ο : Type}
 
 /-- like `okHist`, with the round-trip check replaced by a predicate `good` on the written view -/
-def okHistGood (F : Family σ ο) (E : σ → σ → Bool) (I : σ → Bool) (adm : σ → ο → Bool) (good : σ → Bool)
+def okHistGood (F : Family σ ο) (E : σ → σ → Bool) (I : σ → Bool) (adm : σ → ο → Bool) (good : HList → σ → Bool)
     (s : S σ) : List (Ev ο) → Bool
   | [] => true
   | .view op :: t =>
-    adm s.v op && (let r := F.vstep s.v op; !r.2 || good r.1) &&
+    adm s.v op && (let r := F.vstep s.v op; !r.2 || good s.h r.1) &&
     okHistGood F E I adm good (next F s (.view op)) t
   | .refetch :: t =>
     I (F.load s.h) && E (F.load (F.refetchH s.h)) (F.load s.h) && okHistGood F E I adm good (next F s .refetch) t
   | .edit f :: t => okHistGood F E I adm good (next F s (.edit f)) t
 
-theorem okHist_of_good (F : Family σ ο) (E : σ → σ → Bool) (I : σ → Bool) (adm : σ → ο → Bool) (good : σ → Bool)
+theorem okHist_of_good (F : Family σ ο) (E : σ → σ → Bool) (I : σ → Bool) (adm : σ → ο → Bool) (good : HList → σ → Bool)
     (hstep : ∀ v op, I v = true → adm v op = true → I (F.vstep v op).1 = true)
-    (hrt : ∀ h v, I v = true → good v = true → E (F.load (F.write h v)) v = true)
+    (hrt : ∀ h v, I v = true → good h v = true → E (F.load (F.write h v)) v = true)
     (evs : List (Ev ο)) (s : S σ) (hI : I s.v = true) (hok : okHistGood F E I adm good s evs = true) :
     okHist F E I adm s evs = true := by
   induction evs generalizing s with
@@ -542,40 +392,5 @@ theorem absent_getKey (l : HList) (k : Str) :
     have hkp := List.find?_some hf
     have : p ∈ (if Hdr.contains l k then delKey l k else l).filter (keyEq k) := List.mem_filter.2 ⟨hm, hkp⟩
     simp_all
-
-theorem word_noNL (w : Str) (hw : w.all tokCh = true) : hasNL w = false := by
-  unfold hasNL
-  rw [Bool.eq_false_iff]
-  intro hc
-  rw [List.any_eq_true] at hc
-  obtain ⟨c, hm, hnl⟩ := hc
-  have hm' : c.toNat ∈ Gen.Containers.tokenChars := by
-    have := List.all_eq_true.1 hw c hm; simpa [tokCh] using this
-  obtain ⟨_, _, _, _, h5, _⟩ := tokenChars_plain _ hm'
-  simp only [isNL, Bool.or_eq_true, beq_iff_eq] at hnl
-  rcases hnl with e | e <;> (subst e; exact h5 (by decide))
-
-theorem intercalate_noNL (l : List Str) (hl : ∀ w ∈ l, w.all tokCh = true) :
-    hasNL (List.intercalate ", ".toList l) = false := by
-  induction l with
-  | nil => rfl
-  | cons w r ih =>
-    cases r with
-    | nil => simpa [List.intercalate] using word_noNL w (hl w List.mem_cons_self)
-    | cons w' r' =>
-      have : List.intercalate ", ".toList (w :: w' :: r') = w ++ (", ".toList ++ List.intercalate ", ".toList (w' :: r')) := by
-        simp [List.intercalate, List.intersperse]
-      rw [this]
-      have h1 := word_noNL w (hl w List.mem_cons_self)
-      have h2 := ih (fun x hx => hl x (List.mem_cons_of_mem _ hx))
-      simp only [hasNL, List.any_append, Bool.or_eq_false_iff] at h1 h2 ⊢
-      exact ⟨h1, by decide, h2⟩
-
-theorem dump_tokens (l : List Str) (hl : ∀ w ∈ l, tokenWord w = true) :
-    dumpList l = List.intercalate ", ".toList l := by
-  unfold dumpList
-  have : l.map (quoteHeaderValue ·) = l.map id := List.map_congr_left (fun w hw => quote_token w (hl w hw))
-  rw [this, List.map_id]
-
 
 end Wz.C16L
